@@ -209,6 +209,110 @@ impl FixedStruct {
     { unimplemented!() }
 }
 
+//@ifunit PRNX
+// ---- assumed (PRNX): event-log and journal messages are a byte string (their rendering, built by the readers) plus an
+// optional range holding the datetime text; from_evtxrs / the journal reader end the text with a newline
+//@cut type kind=const path=src/common.rs name=NLu8
+//@end
+//@cut type kind=const path=src/printer/printers.rs name=CHARSZ
+//@end
+pub type DtBegEndPair = (usize, usize);
+pub type DtBegEndPairOpt = Option<DtBegEndPair>;
+#[verifier::external_body]
+pub struct Evtx { _p: u8 }
+impl Evtx {
+    pub uninterp spec fn dt_spec(&self) -> DateTimeL;
+    pub uninterp spec fn data(&self) -> Seq<u8>;
+    pub uninterp spec fn hl(&self) -> DtBegEndPairOpt;
+    #[verifier::external_body]
+    pub fn as_bytes(&self) -> (r: &[u8]) ensures r@ == self.data(), r@.len() <= usize::MAX { unimplemented!() }
+    #[verifier::external_body]
+    pub fn dt_beg_end(&self) -> (r: &DtBegEndPairOpt) ensures *r == self.hl() { unimplemented!() }
+}
+#[verifier::external_body]
+pub struct JournalEntry { _p: u8 }
+impl JournalEntry {
+    pub uninterp spec fn dt_spec(&self) -> DateTimeL;
+    pub uninterp spec fn data(&self) -> Seq<u8>;
+    pub uninterp spec fn hl(&self) -> DtBegEndPairOpt;
+    #[verifier::external_body]
+    pub fn as_bytes(&self) -> (r: &[u8]) ensures r@ == self.data(), r@.len() <= usize::MAX { unimplemented!() }
+    #[verifier::external_body]
+    pub fn dt_beg_end(&self) -> (r: &DtBegEndPairOpt) ensures *r == self.hl() { unimplemented!() }
+}
+pub open spec fn hl_ok(h: DtBegEndPairOpt, len: int) -> bool { h is Some ==> h.unwrap().0 <= h.unwrap().1 <= len }
+pub open spec fn hl_b(h: DtBegEndPairOpt) -> int { if h is Some { h.unwrap().0 as int } else { 0 } }
+pub open spec fn hl_e(h: DtBegEndPairOpt) -> int { if h is Some { h.unwrap().1 as int } else { 0 } }
+/// index of the first byte x in s, if any (bstr's find_byte: assumed)
+pub open spec fn first_at(s: Seq<u8>, x: u8, i: int) -> bool { 0 <= i < s.len() && s[i] == x && forall|j: int| 0 <= j < i ==> s[j] != x }
+#[verifier::external_body]
+pub fn verif_find_byte(s: &[u8], x: u8) -> (r: Option<usize>)
+    ensures r is Some ==> first_at(s@, x, r.unwrap() as int), r is None ==> forall|j: int| 0 <= j < s@.len() ==> s@[j] != x
+{ unimplemented!() }
+/// C13 (event-log / journal, prepended fields): per newline-terminated line of the text: prefix ++ line; a tail without a
+/// newline is not written by the prepend variants (the readers end every text with a newline)
+pub open spec fn epayload(pre: Seq<u8>, s: Seq<u8>) -> Seq<u8>
+    decreases s.len()
+{
+    if exists|i: int| first_at(s, 0x0au8, i) {
+        let b = choose|i: int| first_at(s, 0x0au8, i);
+        pre + s.take(b + 1) + epayload(pre, s.skip(b + 1))
+    } else { Seq::<u8>::empty() }
+}
+pub proof fn lemma_first_unique(s: Seq<u8>, x: u8, i: int, j: int)
+    requires first_at(s, x, i), first_at(s, x, j) ensures i == j
+{ if i < j { assert(s[i] != x); } if j < i { assert(s[j] != x); } }
+pub proof fn lemma_epayload_step(pre: Seq<u8>, s: Seq<u8>, b: int)
+    requires first_at(s, 0x0au8, b)
+    ensures epayload(pre, s) == pre + s.take(b + 1) + epayload(pre, s.skip(b + 1))
+{
+    let c = choose|i: int| first_at(s, 0x0au8, i);
+    lemma_first_unique(s, 0x0au8, b, c);
+}
+pub proof fn lemma_epayload_none(pre: Seq<u8>, s: Seq<u8>)
+    requires forall|j: int| 0 <= j < s.len() ==> s[j] != 0x0au8
+    ensures epayload(pre, s) == Seq::<u8>::empty()
+{
+    if exists|i: int| first_at(s, 0x0au8, i) { let c = choose|i: int| first_at(s, 0x0au8, i); assert(s[c] == 0x0au8); }
+}
+/// C13 "deleting the fields leaves exactly the undecorated output": with an empty prefix the payload is the text itself, when
+/// the text ends with a newline (or is empty)
+pub proof fn lemma_epayload_empty_prefix(s: Seq<u8>)
+    requires s.len() == 0 || s.last() == 0x0au8
+    ensures epayload(Seq::<u8>::empty(), s) == s
+    decreases s.len()
+{
+    if s.len() == 0 { lemma_epayload_none(Seq::<u8>::empty(), s); }
+    else {
+        // there is a newline: the last byte; so a first one exists
+        lemma_exists_first(s, 0x0au8, s.len() - 1);
+        let b = choose|i: int| first_at(s, 0x0au8, i);
+        lemma_epayload_step(Seq::<u8>::empty(), s, b);
+        let t = s.skip(b + 1);
+        if t.len() > 0 { assert(t.last() == s.last()); }
+        lemma_epayload_empty_prefix(t);
+        assert(Seq::<u8>::empty() + s.take(b + 1) + t =~= s);
+    }
+}
+
+pub proof fn lemma_len_parts(v0: Seq<u8>, a: Seq<u8>, b: Seq<u8>, c: Seq<u8>, d: Seq<u8>)
+    ensures (v0 + (a + b + c + d)).len() == v0.len() + a.len() + b.len() + c.len() + d.len(),
+        v0 + (a + b + c + d) == v0 + a + b + c + d,
+{ assert(v0 + (a + b + c + d) =~= v0 + a + b + c + d); }
+pub proof fn lemma_epayload_tail_none(pre: Seq<u8>, s: Seq<u8>, a: int)
+    requires 0 <= a <= s.len(), forall|j: int| 0 <= j < s.skip(a).len() ==> s.skip(a)[j] != 0x0au8
+    ensures epayload(pre, s.skip(a)) == Seq::<u8>::empty()
+{ lemma_epayload_none(pre, s.skip(a)); }
+pub proof fn lemma_exists_first(s: Seq<u8>, x: u8, k: int)
+    requires 0 <= k < s.len(), s[k] == x
+    ensures exists|i: int| first_at(s, x, i)
+    decreases k
+{
+    if forall|j: int| 0 <= j < k ==> s[j] != x { assert(first_at(s, x, k)); }
+    else { let j = choose|j: int| 0 <= j < k && s[j] == x; lemma_exists_first(s, x, j); }
+}
+//@endif
+
 // ---- real: the printer's constants and struct (src/printer/printers.rs); fields made visible to specs
 //@cut type kind=const path=src/printer/printers.rs name=BUFFER_USE
 //@end
@@ -685,6 +789,7 @@ impl PrinterLogMessage {
         ensures r.bytes() == dt_text(self.prepend_date_format.bytes(), syslinep.dt)
     { unimplemented!() }
 
+//@ifunit PRN
 //@cut fn path=src/printer/printers.rs impl=PrinterLogMessage name=print_line ret=r
 //@replace "stdout_lock: &mut StdoutLock" "stdout_lock: &mut StdoutLock"
 //@desugar_for 1 it
@@ -990,6 +1095,7 @@ impl PrinterLogMessage {
     proof { reveal(vs); reveal(ls); }
 //@end
 
+//@endif
     /// C13: payload of one accounting record = [file-name field] ++ [datetime field] ++ record text, in that order
     pub open spec fn fx_payload(&self, m: &FixedStruct, buflen: int, with_file: bool, with_date: bool) -> Seq<u8> {
         (if with_file { self.pf() } else { Seq::<u8>::empty() })
@@ -1005,6 +1111,7 @@ impl PrinterLogMessage {
         && self.do_color == o.do_color && self.do_prepend_file == o.do_prepend_file && self.do_prepend_date == o.do_prepend_date
     }
 
+//@ifunit PRN
 //@cut fn path=src/printer/printers.rs impl=PrinterLogMessage name=print_fixedstruct_ ret=r
 //@spec
     requires old(self).buffer@.len() == 0
@@ -1071,6 +1178,7 @@ impl PrinterLogMessage {
     proof { reveal(vs); reveal(ls); }
 //@end
 
+//@endif
     /// configuration invariant established by PrinterLogMessage::new (do_prepend_* mirror the option values)
     pub open spec fn config_ok(&self) -> bool {
         &&& self.do_prepend_file == (self.prepend_file is Some)
@@ -1079,6 +1187,7 @@ impl PrinterLogMessage {
         &&& self.col_ok()
     }
 
+//@ifunit PRN
     // ---- assumed until brought under contract: the colour variants write the same payload (C13 "pure decoration")
     // and return its length; only escape sequences are added.  Listed in the evidence as assumptions.
 
@@ -1712,6 +1821,156 @@ impl PrinterLogMessage {
         r is Ok ==> r->Ok_0.0 as int == old(self).fx_payload(fixedstruct, old(buffer)@.len() as int, old(self).do_prepend_file, old(self).do_prepend_date).len(),
 //@mutate "(false, true, false) => self.print_fixedstruct_prependfile(fixedstruct, buffer)" "(false, true, false) => self.print_fixedstruct_prependdate(fixedstruct, buffer)"
 //@end
+//@endif
+//@ifunit PRNX
+    #[verifier::external_body]
+    fn datetime_to_string_evtx(&self, evtx: &Evtx) -> (r: String)
+        ensures r.bytes() == dt_text(self.prepend_date_format.bytes(), evtx.dt_spec())
+    { unimplemented!() }
+    #[verifier::external_body]
+    fn datetime_to_string_journalentry(&self, journalentry: &JournalEntry) -> (r: String)
+        ensures r.bytes() == dt_text(self.prepend_date_format.bytes(), journalentry.dt_spec())
+    { unimplemented!() }
+    /// the prefix of every line of an event-log / journal message
+    pub open spec fn x_prefix(&self, dt: DateTimeL, with_file: bool, with_date: bool) -> Seq<u8> {
+        (if with_file { self.pf() } else { Seq::<u8>::empty() }) + (if with_date { dt_text(self.prepend_date_format.bytes(), dt) } else { Seq::<u8>::empty() })
+    }
+
+//@cut fn path=src/printer/printers.rs impl=PrinterLogMessage name=print_evtx_ ret=r
+//@spec
+    requires old(self).buffer@.len() == 0
+    ensures
+        final(self).same_config(old(self)), final(self).same_color_state(old(self)),
+        r is Ok ==> final(self).buffer@.len() == 0,
+        r is Ok ==> r->Ok_0.0 as int == evtx.data().len(),
+//@before_tail
+        // C13 / C10: exactly the message's bytes were written, nothing else; every byte written was counted
+        assert(stdout_lock.view() == evtx.data() && printed == stdout_lock.view().len() && self.buffer@.len() == 0);
+//@at_entry
+    proof { reveal(vs); reveal(ls); }
+//@end
+
+//@cut fn path=src/printer/printers.rs impl=PrinterLogMessage name=print_journalentry_ ret=r
+//@spec
+    requires old(self).buffer@.len() == 0
+    ensures
+        final(self).same_config(old(self)), final(self).same_color_state(old(self)),
+        r is Ok ==> final(self).buffer@.len() == 0,
+        r is Ok ==> r->Ok_0.0 as int == journalentry.data().len(),
+//@before_tail
+        assert(stdout_lock.view() == journalentry.data() && printed == stdout_lock.view().len() && self.buffer@.len() == 0);
+//@at_entry
+    proof { reveal(vs); reveal(ls); }
+//@end
+
+//@cut fn path=src/printer/printers.rs impl=PrinterLogMessage name=print_evtx_prepend ret=r
+//@replace "data[a..].find_byte(NLu8)" "verif_find_byte(&data[a..], NLu8)"
+//@desugar_while_let 1 exit="assert(data@.subrange(a as int, data@.len() as int) =~= data@.skip(a as int)); lemma_epayload_tail_none(pre, data@, a as int);"
+//@spec
+    requires
+        old(self).buffer@.len() == 0,
+        do_prependfile ==> old(self).prepend_file is Some,
+        do_prependdate ==> old(self).prepend_date_format.bytes().len() > 0,
+        epayload(old(self).x_prefix(evtx.dt_spec(), do_prependfile, do_prependdate), evtx.data()).len() <= usize::MAX,
+        evtx.data().len() * 6 + 4 < usize::MAX,
+    ensures
+        final(self).same_config(old(self)), final(self).same_color_state(old(self)),
+        r is Ok ==> final(self).buffer@.len() == 0,
+        // C19: the count returned is the number of payload bytes written
+        r is Ok ==> r->Ok_0.0 as int == epayload(old(self).x_prefix(evtx.dt_spec(), do_prependfile, do_prependdate), evtx.data()).len(),
+//@at_entry
+    proof { reveal(vs); reveal(ls); }
+    let ghost pre = self.x_prefix(evtx.dt_spec(), do_prependfile, do_prependdate);
+    let ghost total = epayload(pre, evtx.data());
+//@loop 1
+        invariant
+            self.same_config(old(self)), self.same_color_state(old(self)),
+            data@ == evtx.data(), data@.len() <= usize::MAX, 0 <= a <= data@.len(),
+            pre == self.x_prefix(evtx.dt_spec(), do_prependfile, do_prependdate), total == epayload(pre, data@),
+            prepend_file@ == (if do_prependfile { self.pf() } else { Seq::<u8>::empty() }),
+            prepend_date@ == (if do_prependdate { dt_text(self.prepend_date_format.bytes(), evtx.dt_spec()) } else { Seq::<u8>::empty() }),
+            // what has gone out so far ++ what the remaining text will contribute = the payload
+            vs(&stdout_lock, self.buffer@) + epayload(pre, data@.skip(a as int)) == total,
+            printed + self.buffer@.len() == vs(&stdout_lock, self.buffer@).len(), vs(&stdout_lock, self.buffer@).len() <= total.len(),
+            flushed <= a * 6, total.len() <= usize::MAX, data@.len() * 6 + 4 < usize::MAX,
+        ensures
+            epayload(pre, data@.skip(a as int)) == Seq::<u8>::empty(),
+        decreases data@.len() - a,
+//@after "let line = &data[a..a + b + CHARSZ];"
+            let ghost a0 = a;
+            let ghost v0 = vs(&stdout_lock, self.buffer@);
+            proof {
+                let rest = data@.skip(a0 as int);
+                lemma_epayload_step(pre, rest, b as int);
+                assert(rest.take(b as int + 1) =~= line@);
+                assert(rest.skip(b as int + 1) =~= data@.skip(a0 as int + b as int + 1));
+                assert(pre =~= prepend_file@ + prepend_date@);
+                assert(total == v0 + (prepend_file@ + prepend_date@ + line@ + epayload(pre, data@.skip(a0 as int + b as int + 1)))) by {
+                    assert(v0 + (pre + line@ + epayload(pre, data@.skip(a0 as int + b as int + 1))) =~= v0 + (prepend_file@ + prepend_date@ + line@ + epayload(pre, data@.skip(a0 as int + b as int + 1))));
+                }
+                lemma_len_parts(v0, prepend_file@, prepend_date@, line@, epayload(pre, data@.skip(a0 as int + b as int + 1)));
+            }
+//@after "let mut stdout_lock = self.stdout.lock();"
+        proof { lemma_streams_empty(&stdout_lock, self.buffer@); assert(data@.skip(0) =~= data@); }
+//@before_tail
+        // C13: per line: file-name field, datetime field, line -- in that order, nothing else
+        assert(stdout_lock.view() == total && printed == stdout_lock.view().len() && self.buffer@.len() == 0);
+//@end
+//@cut fn path=src/printer/printers.rs impl=PrinterLogMessage name=print_journalentry_prepend ret=r
+//@replace "data[a..].find_byte(NLu8)" "verif_find_byte(&data[a..], NLu8)"
+//@desugar_while_let 1 exit="assert(data@.subrange(a as int, data@.len() as int) =~= data@.skip(a as int)); lemma_epayload_tail_none(pre, data@, a as int);"
+//@spec
+    requires
+        old(self).buffer@.len() == 0,
+        do_prependfile ==> old(self).prepend_file is Some,
+        do_prependdate ==> old(self).prepend_date_format.bytes().len() > 0,
+        epayload(old(self).x_prefix(journalentry.dt_spec(), do_prependfile, do_prependdate), journalentry.data()).len() <= usize::MAX,
+        journalentry.data().len() * 6 + 4 < usize::MAX,
+    ensures
+        final(self).same_config(old(self)), final(self).same_color_state(old(self)),
+        r is Ok ==> final(self).buffer@.len() == 0,
+        // C19: the count returned is the number of payload bytes written
+        r is Ok ==> r->Ok_0.0 as int == epayload(old(self).x_prefix(journalentry.dt_spec(), do_prependfile, do_prependdate), journalentry.data()).len(),
+//@at_entry
+    proof { reveal(vs); reveal(ls); }
+    let ghost pre = self.x_prefix(journalentry.dt_spec(), do_prependfile, do_prependdate);
+    let ghost total = epayload(pre, journalentry.data());
+//@loop 1
+        invariant
+            self.same_config(old(self)), self.same_color_state(old(self)),
+            data@ == journalentry.data(), data@.len() <= usize::MAX, 0 <= a <= data@.len(),
+            pre == self.x_prefix(journalentry.dt_spec(), do_prependfile, do_prependdate), total == epayload(pre, data@),
+            prepend_file@ == (if do_prependfile { self.pf() } else { Seq::<u8>::empty() }),
+            prepend_date@ == (if do_prependdate { dt_text(self.prepend_date_format.bytes(), journalentry.dt_spec()) } else { Seq::<u8>::empty() }),
+            // what has gone out so far ++ what the remaining text will contribute = the payload
+            vs(&stdout_lock, self.buffer@) + epayload(pre, data@.skip(a as int)) == total,
+            printed + self.buffer@.len() == vs(&stdout_lock, self.buffer@).len(), vs(&stdout_lock, self.buffer@).len() <= total.len(),
+            flushed <= a * 6, total.len() <= usize::MAX, data@.len() * 6 + 4 < usize::MAX,
+        ensures
+            epayload(pre, data@.skip(a as int)) == Seq::<u8>::empty(),
+        decreases data@.len() - a,
+//@after "let line = &data[a..a + b + CHARSZ];"
+            let ghost a0 = a;
+            let ghost v0 = vs(&stdout_lock, self.buffer@);
+            proof {
+                let rest = data@.skip(a0 as int);
+                lemma_epayload_step(pre, rest, b as int);
+                assert(rest.take(b as int + 1) =~= line@);
+                assert(rest.skip(b as int + 1) =~= data@.skip(a0 as int + b as int + 1));
+                assert(pre =~= prepend_file@ + prepend_date@);
+                assert(total == v0 + (prepend_file@ + prepend_date@ + line@ + epayload(pre, data@.skip(a0 as int + b as int + 1)))) by {
+                    assert(v0 + (pre + line@ + epayload(pre, data@.skip(a0 as int + b as int + 1))) =~= v0 + (prepend_file@ + prepend_date@ + line@ + epayload(pre, data@.skip(a0 as int + b as int + 1))));
+                }
+                lemma_len_parts(v0, prepend_file@, prepend_date@, line@, epayload(pre, data@.skip(a0 as int + b as int + 1)));
+            }
+//@after "let mut stdout_lock = self.stdout.lock();"
+        proof { lemma_streams_empty(&stdout_lock, self.buffer@); assert(data@.skip(0) =~= data@); }
+//@before_tail
+        // C13: per line: file-name field, datetime field, line -- in that order, nothing else
+        assert(stdout_lock.view() == total && printed == stdout_lock.view().len() && self.buffer@.len() == 0);
+//@end
+//PRNX-REGION
+//@endif
 }
 
 } // verus!
